@@ -64,6 +64,23 @@ func (e *Engine) smDelete(st *State, mp Val, key Val) {
 }
 
 func syncMapModels(name string) modelFn {
+	if name == "(*sync.Once).Do" {
+		// f runs at most once: whatever it does to the variables it captured may have happened (the closures passed to
+		// Once.Do in this code base only set captured flags); nothing else changes.
+		return func(e *Engine, st *State, fr *Frame, fn *ssa.Function, args []Val, in ssa.Instruction) (Val, bool) {
+			fi, ok := funcTab[args[1].t()]
+			if !ok {
+				return Val{}, false
+			}
+			for _, b := range fi.Bind {
+				if isPointer(b.T) {
+					st.havocAt(ptrInfo(b), deref(b.T), "once")
+				}
+			}
+			st.note("sync.Once.Do: effects of the callback on its captured variables havoc'd")
+			return Val{fn.Signature.Results(), nil}, true
+		}
+	}
 	if !strings.HasPrefix(name, "(*sync.Map).") {
 		return nil
 	}
